@@ -260,6 +260,23 @@ def handleSpecies (j : Json) : Except String Json := do
         ("gasname", S (Sp.gasname cfg p nm')), ("alias", S (Sp.aliasOf cfg p nm')), ("massnumber", (Sp.massNumber p : Nat)),
         ("is_atom", Sp.isAtom p nm'), ("is_electron", Sp.isElectron nm')]).toArray
 
+def tripleJson (t : Nat × Nat × Nat) : Json := Json.arr #[(t.1 : Nat), (t.2.1 : Nat), (t.2.2 : Nat)]
+
+def handleRenorm (j : Json) : Except String Json := do
+  let masses ← natList (← j.getObjVal? "elem_mass")
+  let species ← (← (← j.getObjVal? "species").getArr?).toList.mapM fun s => do
+    let cs ← natList (← s.getObjVal? "counts")
+    let m ← (← s.getObjVal? "mass").getNat?
+    let e ← (← s.getObjVal? "electron").getBool?
+    pure (Renorm.RSpec.mk cs m e)
+  let mat := Renorm.matrix species masses
+  let facs := species.map (Renorm.factor masses)
+  pure <| Json.mkObj [
+    ("matrix", Json.arr (mat.map fun row => Json.arr (row.map tripleJson).toArray).toArray),
+    ("factors", Json.arr (facs.map fun f => match f with
+      | none => Json.null
+      | some ts => Json.arr (ts.map tripleJson).toArray).toArray)]
+
 def handle (line : String) : String :=
   match Json.parse line with
   | .error e => (Json.mkObj [("error", s!"json: {e}")]).compress
@@ -275,6 +292,7 @@ def handle (line : String) : String :=
       | "gasrate" => handleGasRate j
       | "decode" => handleDecode j
       | "species" => handleSpecies j
+      | "renorm" => handleRenorm j
       | "encode_native" => handleEncodeNative j
       | "kromebound" => handleKrome j
       | "dup" => handleDup j
